@@ -36,6 +36,28 @@ fn main() {
             check_dyn(&f, *tf, loc);
         }
     }));
+    // a third node label on four nodes; three hyperedges: the strict trait, the dyn-functor path
+    let tf3: Vec<TF> = vec![TF { n: [1, 1, 1], recipe: 0 }, TF { n: [2, 0, 1], recipe: 0 }, TF { n: [1, 2, 0], recipe: 1 }, TF { n: [0, 1, 2], recipe: 2 }];
+    let s4 = Spec { n_min: 4, n_max: 4, e_min: 0, e_max: 1, ks: 1, kt: 1, lw: 3, lx: 1, a: 1, b: 1, q: 0 };
+    let u4 = s4.universe();
+    ctx.run_slice(Slice::new(format!("three-labels-four-nodes[{} x {} functors, strict and dyn]", s4.name(), tf3.len()), u4.count(), |i, loc| {
+        let f = u4.get_open(i);
+        for tf in &tf3 {
+            loc.more_cases(2);
+            check_strict::<B>(&f, *tf, loc);
+            check_dyn(&f, *tf, loc);
+        }
+    }));
+    let s3e = Spec { n_min: 1, n_max: 2, e_min: 3, e_max: 3, ks: 1, kt: 1, lw: 1, lx: 2, a: 1, b: 1, q: 0 };
+    let u3e = s3e.universe();
+    ctx.run_slice(Slice::new(format!("three-hyperedges[{} x {} functors, strict and dyn]", s3e.name(), tf3.len()), u3e.count(), |i, loc| {
+        let f = u3e.get_open(i);
+        for tf in &tf3 {
+            loc.more_cases(2);
+            check_strict::<B>(&f, *tf, loc);
+            check_dyn(&f, *tf, loc);
+        }
+    }));
     let specid = if quick { Spec::open(3, 1, 2, 2, 2, 2, 2) } else { Spec::open(3, 2, 2, 2, 2, 2, 2) };
     let uid = specid.universe();
     let capid = if quick { 400_000 } else { 20_000_000 };
@@ -44,7 +66,7 @@ fn main() {
     let specp = if quick { Spec::open(2, 1, 1, 2, 1, 1, 1) } else { Spec::open(2, 1, 2, 2, 2, 1, 1) };
     let up = specp.universe().all_open();
     let np = up.len() as u64;
-    let tfs_f: Vec<TF> = if quick { vec![TF { n: [2, 0], recipe: 0 }, TF { n: [1, 2], recipe: 1 }, TF { n: [2, 1], recipe: 2 }] } else { tfs.clone() };
+    let tfs_f: Vec<TF> = if quick { vec![TF { n: [2, 0, 1], recipe: 0 }, TF { n: [1, 2, 1], recipe: 1 }, TF { n: [2, 1, 1], recipe: 2 }] } else { tfs.clone() };
     ctx.run_slice(Slice::new(format!("functoriality[{}^2 x {} functors]", specp.name(), tfs_f.len()), np * np, |i, loc| {
         for tf in &tfs_f {
             loc.more_cases(1);
